@@ -396,6 +396,48 @@ fn dest_reg_num(d: &Dec) -> Option<u8> {
     }
 }
 
+/// See the call site: successors of a direct relative branch lifted above 4 GiB.
+fn high_address_successors(d: &Dec, code: &[u8], obs: &mut Obs) -> Result<(), Failure> {
+    const HIGH: u64 = 0x0000_7f12_3456_8000;
+    // opcode classes with a relative displacement: jcc rel8 / rel32, jmp rel8 / rel32, loop*, j*cxz
+    let (unconditional, is_rel) = match (d.opcode[0], d.opcode[1]) {
+        (0x70..=0x7f, _) | (0xe0..=0xe3, _) => (false, true),
+        (0x0f, 0x80..=0x8f) => (false, true),
+        (0xeb, _) | (0xe9, _) => (true, true),
+        _ => (false, false),
+    };
+    if !is_rel || d.imm_size == 0 || d.imm_off + d.imm_size > code.len() {
+        return Ok(());
+    }
+    let mut rel: i64 = 0;
+    for (i, b) in code[d.imm_off..d.imm_off + d.imm_size].iter().enumerate() {
+        rel |= (*b as i64) << (8 * i);
+    }
+    let shift = 64 - 8 * d.imm_size as u32;
+    let rel = (rel << shift) >> shift;
+    let end = HIGH + d.len as u64;
+    let taken = end.wrapping_add(rel as u64);
+    let block = match lift(true, code, HIGH) {
+        Lifted::Ok(b) => b,
+        _ => return Ok(()),
+    };
+    obs.class("relative-branch-lifted-above-4GiB");
+    let got: std::collections::BTreeSet<u64> = block.successors().iter().map(|s| s.0).collect();
+    let mut want: std::collections::BTreeSet<u64> = std::collections::BTreeSet::new();
+    want.insert(taken);
+    if !unconditional {
+        want.insert(end);
+    }
+    if got != want {
+        fv::fail!(
+            format!("C01|amd64|{}|rel|next|load-address-above-4GiB", family(base_mnemonic(&d.mnemonic))),
+            "`{} {}` ({:02x?}) lifted at 0x{:x}: successors {:x?}, the processor continues at {:x?} (end of instruction 0x{:x}, displacement {})",
+            d.mnemonic, d.op_str, code, HIGH, got, want, end, rel
+        );
+    }
+    Ok(())
+}
+
 pub fn check_case(c: &Case, obs: &mut Obs) -> Result<(), Failure> {
     let mode64 = c.mode == 64;
     let mode = mode_name(c);
@@ -484,6 +526,13 @@ pub fn check_case(c: &Case, obs: &mut Obs) -> Result<(), Failure> {
             obs.exclude("harness:branch-into-own-bytes");
             return Ok(());
         }
+    }
+    // Relative control transfers are position independent: the processor continues at
+    // end-of-instruction + sign-extended displacement wherever the code is loaded.  The native
+    // runner owns a code area below 4 GiB only, so the same bytes are also lifted at an address
+    // above 4 GiB and the successor addresses compared with that arithmetic (amd64 only).
+    if mode64 && !d.has_prefix(0x66) {
+        high_address_successors(&d, code, obs)?;
     }
     let pokes = c.pokes.clone();
     let code_v = code.to_vec();
@@ -923,6 +972,7 @@ pub fn render(c: &Case) -> String {
 pub fn floors() -> Vec<(&'static str, f64)> {
     let mut v: Vec<(&'static str, f64)> = vec![
         ("nontrivial", 0.55),
+        ("relative-branch-lifted-above-4GiB", 0.03),
         ("mode:x86", 0.18),
         ("oracle:cpu(mode-invariant)", 0.08),
         ("oracle:model32", 0.04),
